@@ -489,6 +489,20 @@ impl<'a> Driver<'a> {
                 Ok((o, s)) => {
                     self.check("owned", Some(o.by_ref()), Level::Buffered);
                     self.check("shared", Some(s.by_ref()), Level::Buffered);
+                    // the owned value's own impls (not through `by_ref`) must show the same thing
+                    for (name, ov) in [("owned", &o), ("shared", &s)] {
+                        let same = catch(|| {
+                            let r = ov.by_ref();
+                            serde_json::to_string(ov).map_err(|e| e.to_string()) == serde_json::to_string(&r).map_err(|e| e.to_string())
+                                && sval_json::stream_to_string(ov).map_err(|e| e.to_string()) == sval_json::stream_to_string(&r).map_err(|e| e.to_string())
+                                && ov.to_string() == ov.by_ref().to_string()
+                                && format!("{:?}", ov) == format!("{:?}", r)
+                        });
+                        self.r.observe("check:owned-own-impls", 1);
+                        if same != Ok(true) {
+                            self.violation(name, "own-impls", format!("OwnedValue's own Display/Debug/serde/sval impls differ from its by_ref() view ({:?})", same));
+                        }
+                    }
                     // a clone of the shared value, and an owned copy of the owned copy
                     let s2 = s.clone();
                     drop(s);
